@@ -108,6 +108,11 @@ class Rig(object):
         def cb(res, err):
             if res is None:
                 r = None
+            elif isinstance(res, Exception) and res.args and isinstance(res.args[0], str) \
+                    and res.args[0].startswith('wrong version'):
+                # repair D71: a VERSION entry below the enabled version is refused with
+                # Exception('wrong version, enabled version is %d, requested version is %d')
+                r = ["lowerver", int(res.args[0].rsplit(' ', 1)[1])]
             elif isinstance(res, Exception):
                 r = ["raised", res.args[0] if res.args else -1]
             else:
